@@ -80,7 +80,12 @@ Inductive dcase :=
 (* several real fractions of one store. all = every document, descending, no duplicates;
    qs = (qf, qt, IDs returned by SearchDocs over all fractions);
    fetched = (id, found) through Fetcher.FetchDocs for every stored ID *)
-| CStore (all : list id) (qs : list (Z * Z * list id)) (fetched : list (id * bool)).
+| CStore (all : list id) (qs : list (Z * Z * list id)) (fetched : list (id * bool))
+(* chunked search with early stop by time borders (Searcher.SearchDocs: List.Sort by To / From,
+   FractionsPerIteration = fpi < number of fractions, calcEnsuredIDsCount) over real fractions with
+   NESTED / overlapping time ranges. all = every document, descending, no duplicates;
+   qs = (qf, qt, limit, reverse (ascending order), fpi, IDs returned) *)
+| CChunk (all : list id) (qs : list (Z * Z * Z * bool * Z * list id)).
 
 Definition mids_of (ids : list id) : list Z := map fst ids.
 
@@ -143,6 +148,7 @@ Definition dcase_agrees (c : dcase) : bool :=
                       else true)) qs
       end
   | CStore _ _ _ => true
+  | CChunk _ _ => true
   end.
 
 (* ------------------------------------------------------------ implementation output satisfies C14
@@ -190,6 +196,15 @@ Definition dcase_spec_ok (c : dcase) : bool :=
                    else true) qs &&
         forallb (fun p => snd p) fetched
       else true
+  | CChunk all qs =>
+      (* the chunked search returns the same top-L as examining every fraction *)
+      if all_small (mids_of all) then
+        forallb (fun q => let '(qf, qt, lim, rv, _, res) := q in
+                   if negb ((qf =? 0) && has_zero_id all) then
+                     let inr := filter (in_range qf qt) all in
+                     ids_eqb res (firstn (Z.to_nat lim) (if (rv : bool) then rev inr else inr))
+                   else true) qs
+      else true
   end.
 
 (* ------------------------------------------------------------ wire format of the generated files.
@@ -218,6 +233,7 @@ Inductive b4l := b4n | b4c (a b c d : int) (t : b4l).
 Inductive fql := fqn | fqc (qf qt : int) (r : bool) (lo hi : int) (res : idl) (t : fql).
 Inductive sql := sqn | sqc (qf qt : int) (res : idl) (t : sql).
 Inductive ful := fun_ | fuc (m r : int) (found : bool) (t : ful).
+Inductive cql := cqn | cqc (qf qt lim : int) (rv : bool) (fpi : int) (res : idl) (t : cql).
 Inductive wstate := WNone | WPanic | WDist (f t b s : int) (bin : zl).
 
 Fixpoint of_zl (l : zl) : list Z := match l with zn => [] | zc h t => wz h :: of_zl t end.
@@ -238,6 +254,11 @@ Fixpoint of_sql (l : sql) : list (Z * Z * list id) :=
   match l with sqn => [] | sqc qf qt res t => (wz qf, wz qt, of_idl res) :: of_sql t end.
 Fixpoint of_ful (l : ful) : list (id * bool) :=
   match l with fun_ => [] | fuc m r b t => ((wz m, wz r), b) :: of_ful t end.
+Fixpoint of_cql (l : cql) : list (Z * Z * Z * bool * Z * list id) :=
+  match l with
+  | cqn => []
+  | cqc qf qt lim rv fpi res t => (wz qf, wz qt, wz lim, rv, wz fpi, of_idl res) :: of_cql t
+  end.
 Definition of_wstate (w : wstate) : ostate :=
   match w with
   | WNone => SNone
@@ -254,7 +275,8 @@ Inductive case :=
 | WBorders (ids : idl) (qs : b4l)
 | WFrac (creation : int) (ids : idl) (sealed restored : bool) (itotal ifrom ito : int) (st : wstate)
         (mins : idl) (tbl_ok : bool) (qs : fql)
-| WStore (all : idl) (qs : sql) (fetched : ful).
+| WStore (all : idl) (qs : sql) (fetched : ful)
+| WChunk (all : idl) (qs : cql).
 
 Definition decode (c : case) : dcase :=
   match c with
@@ -268,6 +290,7 @@ Definition decode (c : case) : dcase :=
       CFrac (wz creation) (of_idl ids) sealed restored (wz itotal) (wz ifrom) (wz ito) (of_wstate st)
             (of_idl mins) tbl_ok (of_fql qs)
   | WStore all qs fetched => CStore (of_idl all) (of_sql qs) (of_ful fetched)
+  | WChunk all qs => CChunk (of_idl all) (of_cql qs)
   end.
 
 Definition case_agrees (c : case) : bool := dcase_agrees (decode c).
